@@ -421,7 +421,26 @@ def r196(prog, chk):
         fs = facts(prog, fg, flt[0])
         ok = any(o == "falsy" for o, l, r in fs) and any(o == "truthy" for o, l, r in fs) and len(conds(prog, fg, flt[0])) >= 1 and "contours" in T(flt[0].value.generators[0].ifs[0]) and "components" in T(flt[0].value.generators[0].ifs[0])
     chk.ob("R19.6", f"{fg.short}|empty masters are only dropped when the default glyph is not empty and some other is", ok, where(fg), detail="if not default_glyph_empty and other_glyph_empty", message=f"{fg.short}: the empty-master filter changed")
-    chk.minimum("R19.6", 5)
+    # which masters are collected does not depend on the order of the sources: no skip / collection inside the loop is
+    # decided by a variable carried over from earlier iterations (the default source need not come first)
+    for lp in [n for n in A.body_nodes(fg.node) if isinstance(n, ast.For)]:
+        sites = [s for s in ast.walk(lp) if isinstance(s, ast.Continue)] + [c for c in A.calls_in(lp) if isinstance(c.func, ast.Attribute) and c.func.attr in ("append", "add", "extend")]
+        carried = []
+        for s_ in sites:
+            for g in may_conds(prog, fg, s_):
+                tnode = g.raw if g.raw is not None else g.test
+                if g.kind not in ("if", "boolop", "ifexp"):
+                    continue
+                for nm in [n for n in ast.walk(tnode) if isinstance(n, ast.Name) and isinstance(n.ctx, ast.Load)]:
+                    ds = prog.reaching(fg, nm.id, nm)
+                    inside = [d for d in ds if lp.lineno < getattr(d.binder, "lineno", 0) <= lp.end_lineno]
+                    outside = [d for d in ds if d not in inside and d.kind != "param"]
+                    if inside and (outside or any(getattr(d.binder, "lineno", 0) > nm.lineno for d in inside)):
+                        carried.append((s_, nm.id))
+        chk.ob("R19.6", f"{fg.short}|no master is skipped or collected on the evidence of earlier iterations", not carried, where(fg, carried[0][0]) if carried else where(fg, lp),
+               detail=f"{len(sites)} skip / collect site(s) in the loop over the sources", message=f"{fg.short}: whether a master is collected depends on `{carried[0][1] if carried else ''}`, which is carried over from "
+               f"earlier iterations of the loop over the sources: the result depends on the order of the sources (a default source that is not listed first sees other masters dropped or kept differently)")
+    chk.minimum("R19.6", 6)
 
 
 def _def_value(prog, f, e):
@@ -564,6 +583,8 @@ def r199(prog, chk):
 
 
 MUTANTS = [
+    M("empty masters skipped in the loop on what is known of the default so far (seeded C19n)", "ufo2ft/instantiator.py", "collect_glyph_masters",
+      "if this_is_default:\n    default_glyph_empty = True\nelse:\n    other_glyph_empty = True", "if this_is_default:\n    default_glyph_empty = True\nelif not default_glyph_empty:\n    continue", rule="R19.6"),
     M("rule conditions evaluated by hand, a bound of 0 read as 'no bound' (seeded C19l)", "ufo2ft/instantiator.py", "process_rules_swaps",
       "designspaceLib.evaluateRule(rule, location)",
       "all(((c.get('minimum') or float('-inf')) <= location.get(c['name'], 0) <= (c.get('maximum') or float('inf')) for cs in rule.conditionSets for c in cs))", rule="R19.9"),
